@@ -493,6 +493,7 @@ func ToleratedFaultsInBody() {
 // interpreter of package gen (pre · construct · post inside the loop body)
 func init() {
 	vrt.Register("C08_generated_bodies", GeneratedBodies)
+	vrt.Register("C08_element_kinds", ElementKinds)
 }
 
 func GeneratedBodies() {
@@ -509,4 +510,62 @@ func GeneratedBodies() {
 	body := g.Block(gen.Cx{Loop: true, Inner: "e", Key: key}, 0)
 	prog := []*gen.Stmt{gen.Text("<"), gen.For(key, "e", it, body), gen.Text(">")}
 	gen.Check(prog, gen.NewData(maxLen()), "loop body from the grammar")
+}
+
+// ---- elements of every kind, also nil ones of a nil-able kind (a nil slice, a
+// nil map, a nil pointer, a nil func inside an interface): only the untyped nil
+// ends an iterator; slices, arrays and maps visit every element whatever it is
+type anyIter struct {
+	xs  []interface{}
+	pos int
+}
+
+func (a *anyIter) Next() interface{} {
+	if a.pos >= len(a.xs) {
+		return nil
+	}
+	a.pos++
+	return a.xs[a.pos-1]
+}
+
+func ElementKinds() {
+	x := vrt.Int()
+	pool := []interface{}{x, "s", []string(nil), map[string]int(nil), (*person)(nil), (func())(nil), []int{}, 0, false, "", &person{Nick: "n"}, 1.5}
+	// what an element prints as in  (<%= i %>:<%= if (v) { %>t<% } else { %>f<% } %>)
+	truthy := []bool{true, true, true, true, false, true, true, true, false, false, true, true}
+	n := 2 + vrt.Choice(2)
+	var elems []interface{}
+	want := ""
+	for i := 0; i < n; i++ {
+		k := vrt.Choice(len(pool))
+		elems = append(elems, pool[k])
+		want += "(" + itoa(i) + ":"
+		if truthy[k] {
+			want += "t)"
+		} else {
+			want += "f)"
+		}
+	}
+	ctx := plush.NewContext()
+	switch vrt.Choice(3) {
+	case 0:
+		ctx.Set("it", &anyIter{xs: elems})
+	case 1:
+		ctx.Set("it", elems)
+	default:
+		var arr [3]interface{}
+		copy(arr[:], elems)
+		if n == 3 {
+			ctx.Set("it", arr)
+		} else {
+			ctx.Set("it", elems)
+		}
+	}
+	in := "[<%= for (i, v) in it { %>(<%= i %>:<%= if (v) { %>t<% } else { %>f<% } %>)<% } %>]"
+	vrt.Note("input", in)
+	got, err := plush.Render(in, ctx)
+	vrt.Note("got", got)
+	vrt.Assert(err == nil, "a loop over elements of any kind renders")
+	vrt.Assert(got == "["+want+"]", "every element is visited once, in order, whatever its kind (only the untyped nil ends an iterator)")
+	vrt.Cover("done")
 }
